@@ -512,15 +512,18 @@ def post_shard(part, tier, sel=None):
         orders = (1, 2, 3, float("inf"), 0.5)
         scales = (1.0, -2.0, 0.5, 3 + 4j)  # scale is documented as float | complex: the norm equals its magnitude
         dims = (None, 0, 1, -1, (0, 1))
+        # 3-D and 1-D targets with the same four entries: on them -1, -2 and 1 are different axes, and a size-1 axis exists
+        shape_dims = [((2, 2), d) for d in dims]
         for p in (orders if sel is None else [orders[sel]]):
             for sc in scales:
-                for dim in dims:
-                    for as_param in ((False, True) if (not quick or dim in (None, 0)) else (True,)):
+                extra = [((2, 1, 2), d) for d in (0, 1, 2, -1, -2, (0, 2), (1, 2))] + [((4,), d) for d in (None, 0, -1)] if sc == 1.0 else []
+                for shape, dim in shape_dims + extra:
+                    for as_param in ((False, True) if ((not quick or dim in (None, 0)) and shape == (2, 2)) else (True,)):
                         for tv in tensors:
                             t = torch.tensor(tv).reshape(shape)
                             nested = 2 if (dim == -1 and sc == 0.5) else (1 if dim == 0 else 0)  # attribute path depth varies over the grid
                             m = Holder(t, as_param, nested)
-                            case = {"hook": "Normalization", "order": p, "scale": sc, "dim": dim, "tensor": tv, "param": as_param, "attr": attr_path(nested)}
+                            case = {"hook": "Normalization", "order": p, "scale": sc, "dim": dim, "shape": list(shape), "tensor": tv, "param": as_param, "attr": attr_path(nested)}
                             try:
                                 h = Normalization(m, attr_path(nested), p, sc, dim)
                                 h.register()
@@ -538,7 +541,7 @@ def post_shard(part, tier, sel=None):
                                     if any(v != 0 for v in got):
                                         tally.violation("norm:zero-vector-changed", case, f"zero slice became {got}", src, got)
                                     continue
-                                tally.mark("nontrivial", ("norm", p, sc, dim, tuple(src)))
+                                tally.mark("nontrivial", ("norm", p, sc, dim, shape, tuple(src)))
                                 n = pnorm(got, p)
                                 if abs(n - abs(sc)) > 1e-4 * abs(sc):
                                     tally.violation(f"norm:wrong-norm:p={p}", case, f"slice {src} -> {got} has {p}-norm {n}, expected {abs(sc)}", abs(sc), n)
